@@ -1,0 +1,25 @@
+//go:build verif
+
+// Ghost driver for /verif/govc (see /verif/DESIGN.md, "history lemmas"): an arbitrary history of pushed authorization
+// requests written as a loop. Compiled only with the build tag verif; never called.
+package par
+
+import (
+	"context"
+
+	"github.com/ory/fosite"
+)
+
+// verifEnv decides how long the history is and supplies the pushed requests.
+type verifEnv interface {
+	More() bool
+	Request() fosite.AuthorizeRequester
+	Response() fosite.PushedAuthorizeResponder
+}
+
+// verifHistoryPARPush: any sequence of pushed authorization requests.
+func verifHistoryPARPush(ctx context.Context, env verifEnv, c *PushedAuthorizeHandler, uri0 string) {
+	for env.More() {
+		_ = c.HandlePushedAuthorizeEndpointRequest(ctx, env.Request(), env.Response())
+	}
+}
